@@ -36,15 +36,26 @@ func (t GType) String() string {
 
 type GExpr interface{ gexpr() }
 type (
-	EInt   struct{ V int }
-	EStr   struct{ V string }
-	EVar   struct{ N string }
-	EBin   struct{ Op string; L, R GExpr; T GType } // + - * & | ^ (int) or + (string)
-	ECmp   struct{ Op string; L, R GExpr }         // == != < <= > >=
+	EInt struct{ V int }
+	EStr struct{ V string }
+	EVar struct{ N string }
+	EBin struct {
+		Op   string
+		L, R GExpr
+		T    GType
+	} // + - * & | ^ (int) or + (string)
+	ECmp struct {
+		Op   string
+		L, R GExpr
+	} // == != < <= > >=
 	ELen   struct{ X GExpr }
-	EIndex struct{ X, I GExpr }                     // x[i] on []int, i is made safe by the generator
-	ECall  struct{ Fn string; Args []GExpr; T GType }
-	ENot   struct{ X GExpr }
+	EIndex struct{ X, I GExpr } // x[i] on []int, i is made safe by the generator
+	ECall  struct {
+		Fn   string
+		Args []GExpr
+		T    GType
+	}
+	ENot struct{ X GExpr }
 )
 
 func (EInt) gexpr()   {}
@@ -59,11 +70,24 @@ func (ENot) gexpr()   {}
 
 type GStmt interface{ gstmt() }
 type (
-	SDecl   struct{ N string; T GType; E GExpr } // n := e  (var n T = e when e is a literal of ambiguous type)
-	SAssign struct{ N string; E GExpr }
-	SOpAsg  struct{ N, Op string; E GExpr } // n += e
-	SIf     struct{ C GExpr; Then, Else []GStmt }
-	SFor    struct { // for i := start; i cmp limit; i += step { body }
+	SDecl struct {
+		N string
+		T GType
+		E GExpr
+	} // n := e  (var n T = e when e is a literal of ambiguous type)
+	SAssign struct {
+		N string
+		E GExpr
+	}
+	SOpAsg struct {
+		N, Op string
+		E     GExpr
+	} // n += e
+	SIf struct {
+		C          GExpr
+		Then, Else []GStmt
+	}
+	SFor struct { // for i := start; i cmp limit; i += step { body }
 		I            string
 		Start, Limit GExpr
 		Cmp          string
@@ -73,11 +97,19 @@ type (
 		BottomTest   bool // for { body; i += step; if !(i cmp limit) { break } }  (executes at least once)
 		BreakTest    bool // for { if !(i cmp limit) { break }; body; i += step }
 	}
-	SRange  struct{ I, V string; X GExpr; Body []GStmt }
-	SReturn struct{ E []GExpr }
-	SExpr   struct{ E GExpr }
-	SBreakIf struct{ C GExpr; Label string; Cont bool }
-	SRaw    struct{ Text string } // defer/go/select/panic snippets (not executed natively)
+	SRange struct {
+		I, V string
+		X    GExpr
+		Body []GStmt
+	}
+	SReturn  struct{ E []GExpr }
+	SExpr    struct{ E GExpr }
+	SBreakIf struct {
+		C     GExpr
+		Label string
+		Cont  bool
+	}
+	SRaw struct{ Text string } // defer/go/select/panic snippets (not executed natively)
 )
 
 func (SDecl) gstmt()    {}
